@@ -45,7 +45,7 @@ TOL_SHARED = 1.0e-9   # same process tensor object in both runs: only float roun
 ULPS = 4
 EFFECT_MIN = 1.0e-3   # an ingredient whose un-shifted partner moves the result by less is "not exercised"
 
-TAUS = {"quick": [0.37, -1.3, 2.0, 1000.1], "thorough": [0.37, -1.3, 2.0, 1000.1, -0.6, 0.1, -777.77]}
+TAUS = {"quick": [0.37, -1.3, 2.0, 1000.1], "thorough": [0.37, -1.3, 2.0, 1000.1, -0.6, 0.13]}
 T0S = {"quick": [0.0], "thorough": [0.0, 0.5]}
 
 SP = M.SM.conj().T
@@ -432,7 +432,7 @@ def case_key(c):
 def run(tier, seed):
     rep = Report(LEVEL)
     cs = cases(tier)
-    res = pmap(run_case, cs, seed=seed)
+    res = pmap(run_case, cs, chunksize=2, seed=seed)
     nontrivial = set()
     trivial = {}
     maxdev = {"truncated": 0.0, "shared": 0.0}
@@ -479,7 +479,10 @@ def run(tier, seed):
                 "parameter tuple",
         "alphabet": {"tau": TAUS[tier], "t0": T0S[tier], "dt": DT, "steps": [N_TEMPO, N_PT], "epsrel": EPS,
                      "controls": list(CONTROLS), "correlation_specs": list(CORR_SPECS)},
-        "samples": [cs[0], cs[len(cs) // 2], cs[-1]],
+        "samples": [{"case": cs[i], "max_dev": res[i]["dev"], "time_dev_ulps": res[i]["ulps"],
+                     "effect_of_unshifted_ingredient": {k: (v if np.isfinite(v) else "exception")
+                                                        for k, v in res[i]["effects"].items()}}
+                    for i in (0, len(cs) // 2, len(cs) - 1)],
         "exhaustive": True,
         "max_dev": max(maxdev.values()),
         "max_dev_truncated_networks": maxdev["truncated"],
